@@ -40,6 +40,9 @@ type bProgram struct {
 	Expect []string // lines the program must print, in any order, exactly once each
 }
 
+// threadLimit: simulated limit on threads holding resources, per program kind (absent = none)
+var threadLimit = map[string]int{"goroutine-churn": 24}
+
 // templates: n goroutines, k iterations
 func templates(rng *sim.Rng) []bProgram {
 	n, k := rng.Range(2, 5), rng.Range(2, 6)
@@ -253,6 +256,47 @@ func main() {
 }
 `, m, m)
 		ps = append(ps, bProgram{"go-statement-helper", src, []string{"G each-once true bad 0 true"}})
+	}
+	// 1c. goroutine churn: many short goroutines one after the other, never more
+	// than four alive, under a simulated limit on threads holding resources: the
+	// thread of a finished goroutine must be given back (detached or joined), or
+	// thread creation fails sooner or later and a go statement cannot run its call
+	{
+		batches := rng.Range(20, 40)
+		src := fmt.Sprintf(`package main
+
+import "sync"
+
+func worker(i int, done chan int) { done <- i }
+
+func main() {
+	done := make(chan int)
+	n := 0
+	for i := 1; i <= %d; i++ {
+		go worker(i, done)
+		n += <-done
+	}
+	var wg sync.WaitGroup
+	var mu sync.Mutex
+	m := 0
+	for b := 0; b < %d; b++ {
+		wg.Add(4)
+		for j := 0; j < 4; j++ {
+			go func(v int) {
+				mu.Lock()
+				m += v
+				mu.Unlock()
+				wg.Done()
+			}(b*4 + j)
+		}
+		wg.Wait()
+	}
+	println("G churn", n, m)
+}
+`, 3*batches, batches)
+		t := 3 * batches
+		g := 4 * batches
+		ps = append(ps, bProgram{"goroutine-churn", src, []string{fmt.Sprintf("G churn %d %d", t*(t+1)/2, g*(g-1)/2)}})
 	}
 	// 2. Mutex-protected counter + WaitGroup
 	ps = append(ps, bProgram{"mutex-counter", fmt.Sprintf(`package main
@@ -499,9 +543,15 @@ func buildProgram(dir, src string) (string, error) {
 	return bin, nil
 }
 
-func runSchedule(bin string, seed uint64, spurious int) (string, string) {
+func runSchedule(bin string, seed uint64, spurious, maxThreads, failCreate int) (string, string) {
 	cmd := exec.Command(bin)
 	cmd.Env = []string{"LD_PRELOAD=" + bLib, "VERIF_SEED=" + strconv.FormatUint(seed, 10), "VERIF_SPURIOUS=" + strconv.Itoa(spurious), "GC_DONT_GC=1", "GC_MARKERS=1", "VERIF_MAX_STEPS=300000"}
+	if maxThreads > 0 {
+		cmd.Env = append(cmd.Env, "VERIF_MAX_THREADS="+strconv.Itoa(maxThreads))
+	}
+	if failCreate > 0 {
+		cmd.Env = append(cmd.Env, "VERIF_FAIL_CREATE="+strconv.Itoa(failCreate))
+	}
 	var buf bytes.Buffer
 	cmd.Stdout, cmd.Stderr = &buf, &buf
 	if err := cmd.Start(); err != nil {
@@ -530,6 +580,20 @@ func runSchedule(bin string, seed uint64, spurious int) (string, string) {
 }
 
 func judgeB(p bProgram, out, end string) (string, string) {
+	if strings.Contains(out, "FAULT pthread_create") && end != "timeout" {
+		if !strings.Contains(out, "(injected)") {
+			return "goroutine-threads-never-released", p.Name + ": never more than four goroutines are alive, yet thread creation ran into the simulated limit of " + strconv.Itoa(threadLimit[p.Name]) + " threads holding resources: the threads of finished goroutines are neither detached nor joined (on a real system the go statement stops working after some ten thousand goroutines): " + lastN(out, 300)
+		}
+		// injected EAGAIN: dying loudly is legitimate (Go does), and so is a correct
+		// result (a retry); going on without the call is not
+		if end == "crash" && strings.Contains(out, "fatal error") {
+			return "", ""
+		}
+		if c, _ := judgeB(p, strings.ReplaceAll(out, "FAULT pthread_create", "fault pthread_create"), end); c == "" {
+			return "", ""
+		}
+		return "go-statement-dropped", p.Name + ": thread creation failed (injected EAGAIN) and the program went on without running the go statement's call and without reporting anything: " + lastN(out, 300)
+	}
 	switch end {
 	case "timeout":
 		return "infra-timeout", "a compiled program did not finish within 30 s wall-clock under the deterministic scheduler"
@@ -572,6 +636,8 @@ type bReplay struct {
 	Expect   []string `json:"expect"`
 	Seed     uint64   `json:"sched_seed"`
 	Spurious int      `json:"spurious_per_mille"`
+	MaxThr   int      `json:"simulated_thread_limit,omitempty"`
+	FailCr   int      `json:"fail_pthread_create_number,omitempty"`
 	Class    string   `json:"violation_class"`
 	Detail   string   `json:"detail"`
 	Output   string   `json:"output"`
@@ -587,6 +653,7 @@ func (prop) ExtraPhase(tier string, seed uint64, deadline time.Time) (*driver.Ex
 		rounds, nsched = 8, 600
 	}
 	runs, nprog := 0, 0
+	faultRuns, faultsFired := 0, 0
 	hashes := map[string]bool{}
 	perProg := map[string]int{}
 	var sample any
@@ -605,7 +672,15 @@ func (prop) ExtraPhase(tier string, seed uint64, deadline time.Time) (*driver.Ex
 			for k := 0; k < nsched && time.Now().Before(deadline); k++ {
 				ss := sim.RunSeed(seed^0x5c4ed, uint64((r*10+pi)*100000+k))
 				sp := []int{0, 0, 30, 200}[k%4]
-				out, end := runSchedule(bin, ss, sp)
+				fc := 0
+				if k%5 == 4 && (strings.HasPrefix(p.Name, "go-statement") || p.Name == "goroutine-churn") {
+					fc = 1 + int(ss>>8)%6 // fault: this pthread_create of the process fails with EAGAIN
+					faultRuns++
+				}
+				out, end := runSchedule(bin, ss, sp, threadLimit[p.Name], fc)
+				if strings.Contains(out, "(injected)") {
+					faultsFired++
+				}
 				runs++
 				perProg[p.Name]++
 				hashes[p.Name+out] = true
@@ -617,11 +692,11 @@ func (prop) ExtraPhase(tier string, seed uint64, deadline time.Time) (*driver.Ex
 					sample = map[string]any{"program": p.Src, "sched_seed": ss, "output": strings.Split(strings.TrimSpace(out), "\n")}
 				}
 				if cls != "" {
-					out2, _ := runSchedule(bin, ss, sp)
+					out2, _ := runSchedule(bin, ss, sp, threadLimit[p.Name], fc)
 					if out2 != out {
 						return nil, fmt.Errorf("layer B: schedule seed %d of program %s does not replay (outputs differ)", ss, p.Name)
 					}
-					rp := bReplay{Layer: "B", Name: p.Name, Program: p.Src, Expect: p.Expect, Seed: ss, Spurious: sp, Class: cls, Detail: det, Output: out}
+					rp := bReplay{Layer: "B", Name: p.Name, Program: p.Src, Expect: p.Expect, Seed: ss, Spurious: sp, MaxThr: threadLimit[p.Name], FailCr: fc, Class: cls, Detail: det, Output: out}
 					b, _ := json.MarshalIndent(rp, "", " ")
 					er.Violations = append(er.Violations, driver.ExtraViolation{Class: cls, Detail: "[compiled program under libdetsched] " + det, Name: fmt.Sprintf("B-%s-%d", p.Name, k), Replay: b})
 					break
@@ -635,6 +710,7 @@ func (prop) ExtraPhase(tier string, seed uint64, deadline time.Time) (*driver.Ex
 	er.Coverage["schedules_run"] = runs
 	er.Coverage["schedules_per_program_kind"] = perProg
 	er.Coverage["distinct_outputs"] = len(hashes)
+	er.Coverage["faults"] = map[string]int{"schedules_with_a_failing_pthread_create_configured": faultRuns, "pthread_create_failures_fired": faultsFired}
 	er.Coverage["sample"] = sample
 	er.Coverage["components"] = "real: llgo lowering of the go statement and thread start, llgo-compiled sema_llgo.go under the real std sync; stub: pthread mutex/cond/once/sem and thread scheduling (toolchain/libdetsched.c); sync/atomic instructions are never preempted (indivisibility not exercised)"
 	return er, nil
@@ -651,7 +727,7 @@ func (prop) ReplayExtra(raw []byte) (string, string, error) {
 	if err != nil {
 		return "", "", err
 	}
-	out, end := runSchedule(bin, rp.Seed, rp.Spurious)
+	out, end := runSchedule(bin, rp.Seed, rp.Spurious, rp.MaxThr, rp.FailCr)
 	fmt.Print(out)
 	cls, det := judgeB(bProgram{rp.Name, rp.Program, rp.Expect}, out, end)
 	return cls, det, nil
